@@ -455,9 +455,13 @@ def obligations(tier):
                 funcs=qualnames(HLP.TrainState.create,
                                 HLP.TrainState.apply_gradients),
                 bounds='8 Variable-type layouts, 1..3 steps'))
-  for n in range(1, (4 if quick else 6) + 1):
+  # (streams of 6 values, and 5 values with a reset in between, leave z3's
+  # non-linear arithmetic without an answer in 300 s: not part of the tier)
+  for n in range(1, (4 if quick else 5) + 1):
     for wr, s2 in ((0, 0), (1, 0), (0, 1)):
       if s2 and n < 2:
+        continue
+      if n == 5 and wr:
         continue
       obs.append(
           Ob('metrics_ignore_batching_n%d_reset%d_2d%d' % (n, wr, s2),
